@@ -61,6 +61,8 @@ CONSTANTS
   SameConcat <- MCSameConcat
   FirstVersion = "v1"
   MTimes <- %(mtimes)s
+  Gone <- MCGone
+  WithRemoval = %(removal)s
   MaxAttempts = %(attempts)d
   MaxReloads = %(reloads)d
   Memo = "%(memo)s"
@@ -69,8 +71,8 @@ CHECK_DEADLOCK FALSE
 """
 
 
-def hist_cfg(spec, creds, attempts, reloads, memo="none", inv=False, mtimes="MCMTimesAll"):
-    return HIST_CFG % dict(spec=spec, creds=creds, attempts=attempts, reloads=reloads, memo=memo, mtimes=mtimes,
+def hist_cfg(spec, creds, attempts, reloads, memo="none", inv=False, mtimes="MCMTimesAll", removal=False):
+    return HIST_CFG % dict(removal="TRUE" if removal else "FALSE", spec=spec, creds=creds, attempts=attempts, reloads=reloads, memo=memo, mtimes=mtimes,
                            inv="INVARIANTS HistoryIndependent UpstreamOnlyWhenAccepted" if inv else "")
 
 
